@@ -282,8 +282,22 @@ impl HtmlWorld {
                 (input, p)
             },
             HProp::C04 => {
-                let input = if rng.chance(1, 400) { gen_pathological(rng, thorough) } else { gen_input(rng, thorough) };
-                let p = if rng.chance(2, 5) { gen_tok_pipeline(rng, true) } else { gen_tree_pipeline(rng, true, true) };
+                let patho = rng.chance(1, 400);
+                let input = if patho { gen_pathological(rng, thorough) } else { gen_input(rng, thorough) };
+                let p = if rng.chance(1, if patho { 3 } else { 12 }) {
+                    // the repository's own sink: deep trees must not overflow the stack in drop / serialize
+                    let context = if rng.chance(1, 4) {
+                        let (n, l) = *rng.pick(CONTEXTS);
+                        Some((n.to_string(), l.to_string()))
+                    } else {
+                        None
+                    };
+                    Pipeline::RcDom { context, ctx_scripting: rng.chance(1, 2) }
+                } else if rng.chance(2, 5) {
+                    gen_tok_pipeline(rng, true)
+                } else {
+                    gen_tree_pipeline(rng, true, true)
+                };
                 (input, p)
             },
             HProp::C05 | HProp::C18 => {
@@ -389,7 +403,7 @@ fn add_run_stats(stats: &mut Stats, obs: &RunObs) {
     stats.add("F5_nodes_collected", s.collected_nodes);
     stats.add("pauses_script", s.pauses_script);
     if obs.is_driver {
-        stats.inc("runs_through_html5ever_driver");
+        stats.inc(if obs.sink.is_some() { "runs_through_html5ever_driver" } else { "runs_through_driver_with_RcDom_serialize_drop" });
     }
     stats.add("F11_script_detached_an_element", s.script_removals);
     stats.add("pauses_encoding_indicator", s.pauses_indicator);
@@ -960,6 +974,7 @@ impl HtmlWorld {
             },
             HProp::C19 => {
                 match &case.pipeline {
+                    Pipeline::RcDom { .. } => Ok(()),
                     Pipeline::Tree { .. } => {
                         let r19 = check_c19_tree(&obs);
                         stats.add("probe_indicator_expected_and_raised", C19_EXPECTED.with(|c| c.replace(0)));
@@ -1230,6 +1245,13 @@ fn case_candidates(c: &HtmlCase) -> Vec<HtmlCase> {
             if last_start_tag.is_some() {
                 let mut n = c.clone();
                 n.pipeline = Pipeline::Tok { policy: *policy, initial_state: initial_state.clone(), last_start_tag: None };
+                out.push(n);
+            }
+        },
+        Pipeline::RcDom { context, ctx_scripting } => {
+            if context.is_some() {
+                let mut n = c.clone();
+                n.pipeline = Pipeline::RcDom { context: None, ctx_scripting: *ctx_scripting };
                 out.push(n);
             }
         },
